@@ -537,7 +537,7 @@ def _forced_conflict(draw, base):
     shape = draw(st.sampled_from(["del_vs_edit", "edit_vs_del", "both_edit_source", "both_edit_outputs", "both_edit_meta",
                                   "both_insert_same_pos", "both_insert_similar", "insert_next_to_edit", "insert_next_to_del",
                                   "both_append_nonl", "both_attach", "both_nbmeta", "both_minor", "both_del", "both_ec",
-                                  "both_same_edit", "both_edit_same_output", "both_edit_same_output", "transient_meta", "type_vs_edit", "type_vs_edit"]))
+                                  "both_same_edit", "both_edit_same_output", "both_edit_same_output", "transient_meta", "type_vs_edit", "type_vs_edit", "type_vs_edit"]))
     usedl, usedr = _ids(l), _ids(r)
     if n == 0 or shape in ("both_insert_same_pos", "both_insert_similar"):
         i = draw(st.integers(0, n))
